@@ -1172,6 +1172,12 @@ func liveFamily(r *h.Run, rng *h.Rng, fam string, cancelMode bool) {
 				e.liveSwitchingProtocols(r, fam, []string{"client", "unary", "server"}[pi%3], proto)
 			}
 		}
+		for pi, proto := range protos {
+			e.liveCloseRequestFails(r, fam, proto, pi%2 == 0)
+			if r.Thorough() {
+				e.liveCloseRequestFails(r, fam, proto, pi%2 != 0)
+			}
+		}
 		for _, proto := range protos {
 			e.liveRejected(r, fam, "bidi", proto, true)
 			e.liveRejected(r, fam, "client", proto, rng.Bool())
@@ -1404,6 +1410,53 @@ func (e *liveEnv) liveStallInEnvelope(r *h.Run, fam, proto string, h2 bool, k in
 	}
 	c.step("Close", func() error { return st.Close() })
 	r.Sample(fam, c.input())
+}
+
+// closeFailsIcpt: a streaming client interceptor whose conn closes the request side and then
+// reports a failure of its own from CloseRequest.
+type closeFailsIcpt struct{}
+
+func (closeFailsIcpt) WrapUnary(next connect.UnaryFunc) connect.UnaryFunc { return next }
+func (closeFailsIcpt) WrapStreamingHandler(next connect.StreamingHandlerFunc) connect.StreamingHandlerFunc {
+	return next
+}
+func (closeFailsIcpt) WrapStreamingClient(next connect.StreamingClientFunc) connect.StreamingClientFunc {
+	return func(ctx context.Context, spec connect.Spec) connect.StreamingClientConn {
+		return &closeFailsConn{next(ctx, spec)}
+	}
+}
+
+type closeFailsConn struct{ connect.StreamingClientConn }
+
+func (c *closeFailsConn) CloseRequest() error {
+	_ = c.StreamingClientConn.CloseRequest()
+	return errors.New("interceptor: could not flush its bookkeeping")
+}
+
+// liveCloseRequestFails: CallServerStream fails because an interceptor's CloseRequest does: the
+// caller gets no stream it could close, so nothing of the call may remain — no goroutine, no
+// open response body.
+func (e *liveEnv) liveCloseRequestFails(r *h.Run, fam, proto string, h2 bool) {
+	c, url, hc := e.newCall(r, "C14", fam, "server", proto, h2, hprog{Send: 2})
+	client := connect.NewClient[h.Raw, h.Raw](hc, url, append(liveClientOpts(proto), connect.WithInterceptors(closeFailsIcpt{}))...)
+	c.log = append(c.log, "[a client interceptor's conn closes the request side and then returns an error of its own from CloseRequest]")
+	r.Eval(fam, fmt.Sprintf("close-request-fails/%s/%v", proto, h2))
+	req := connect.NewRequest(bigMsg(16))
+	req.Header().Set("X-Call", c.id)
+	req.Header().Set("X-Prog", c.prog.String())
+	var st *connect.ServerStreamForClient[h.Raw]
+	err, ok := c.step("CallServerStream", func() error { var err error; st, err = client.CallServerStream(context.Background(), req); return err })
+	if !ok {
+		return
+	}
+	if err == nil {
+		// (the library may also decide to go on; then the caller finishes the call as usual)
+		c.step("Close", func() error { return st.Close() })
+	}
+	c.handlerReturned(2 * time.Second)
+	time.Sleep(100 * time.Millisecond) // (let the response arrive: a body that is never closed is what is looked for)
+	r.Sample(fam, c.input())
+	c.afterCall(true)
 }
 
 // liveSwitchingProtocols: the peer answers 101 and keeps the connection open (HTTP/1.1). The
